@@ -8,8 +8,8 @@ RULE = ("grid over (rx, ry, rotation in multiples of 1/24 turn and random, 4 fla
         "maps, absolute and relative, undersized radii, zero / negative / NaN radii, arcs after other verbs; malformed stream (coincident endpoints, huge values) "
         "compared on segment count only. Observable: CubeTo/LineTo arguments (float32 bits) on the recording rasteriser. Non-trivial: at least one "
         "cubic was emitted; distinct by text.")
-ASSUMPTIONS = ["math.Sin/Cos/Acos/Sqrt of the installed Go toolchain on this host agree bit-for-bit with coq/model/GoMath.v (checked by this run, not proved)",
-               "rotations with |2*pi*rot| >= 2^29 (Payne-Hanek range) are outside the model and compared on call shape only"]
+ASSUMPTIONS = ["math.Sin/Cos/Acos/Sqrt of the installed Go toolchain on this host agree bit-for-bit with coq/model/GoMath.v incl. the Payne-Hanek range (checked by this run, not proved)",
+               "arcs with coincident end points or NaN/Inf parameters are compared on activity (drawn / skipped) only"]
 
 CONFIGS = [
     (["c2000000", "c2000000", "42000000", "42000000"], [0, 0, 64, 64]),
@@ -65,7 +65,7 @@ def is_malformed(case):
                 rx, ry, rot = (C.bits_f32(int(t[i + k], 16)) for k in (1, 2, 3))
             except ValueError:
                 continue
-            if not (abs(rot) < 1e6) or not (abs(rx) < 1e6 and abs(ry) < 1e6) or (0 < abs(rx) < 1e-6) or (0 < abs(ry) < 1e-6):
+            if rot != rot or rx != rx or ry != ry or abs(rot) == float('inf'):
                 return True
             if x == "A" and i >= 2 and t[i + 5] == t[i - 2] and t[i + 6] == t[i - 1]:
                 return True
